@@ -43,7 +43,7 @@ Section Multi.
   Variables (P S : Type).
   Variable d : S.
 
-  Fixpoint set_nth (k : nat) (x : S) (l : list S) : list S :=
+  Fixpoint set_nth (k : nat) (x : S) (l : list S) {struct l} : list S :=
     match l with
     | [] => []
     | y :: tl => match k with O => x :: tl | Datatypes.S k' => y :: set_nth k' x tl end
